@@ -8,6 +8,16 @@ TRUSTED = ("Trusted base: go/types+go/ssa construction of the verified text, the
            "assumed contracts of external functions are listed per run in the evidence file (assumptions[]).")
 
 claimed = {
+ "C04": dict(
+   text="Every aggregation function is proved, for all list lengths and contents, to return THE sum of its inputs in the group it works in, stated with spec-level left folds (e1sum / e2sum / frsum: identity for n <= 0, add(sum(n-1), x[n-1]) otherwise) over the uninterpreted BLST additions: "
+        "C (from the clang AST): Fr_sum_vector, E1_sum_vector, E2_sum_vector (loop invariant `partial sum`), E2_sum_vector_to_affine (= affine form of the sum, infinity preserved), E2_subtract_vector (= x + (-(sum y))), "
+        "E1_sum_vector_byte (accepts exactly the lists of canonical 48-byte encodings, result = canonical encoding of the sum of the decoded points; no subgroup check, by design); "
+        "Go: AggregateBLSPublicKeys (point of the result = affine(sum of the keys' points), identity flag recomputed: invariant pkWF), RemoveBLSPublicKeys (= aggKey + (-(sum of removed)), empty list returns aggKey itself), "
+        "AggregateBLSPrivateKeys (scalar = sum of the scalars), AggregateBLSSignatures (error classes exact: empty list, any signature of length != 48, any non-canonical encoding => errInvalidSignature; otherwise the encoding of the sum of the decoded points); "
+        "the flattening loops are proved chunk by chunk (`the k-th 48-byte chunk of the flat buffer decodes like signature k`). Two lemmas are proved by induction in every run: a sum depends only on the summed elements, and the decoded point / canonicity of a chunk depends only on its 48 bytes (from the byte-level definition). "
+        "NOT machine-checked (paper step over the proved folds): commutativity/associativity consequences (order independence, nesting), and the homomorphism statements relating the three aggregations (they need the group axioms of BLST's additions).",
+   note=TRUSTED + " BLST additions/negation/affine conversion are uninterpreted functions (assumed contracts of E1_add, E2_add, Fr_add, E2_neg, E2_to_affine); malloc is assumed to succeed; group laws (abelian) are not axiomatised, so order-independence is a paper step.",
+   design="§0.2, §5 C04"),
  "C19": dict(
    text="Race-freedom is decided through frame conditions proved on the real code: a call that writes no memory existing before the call cannot race with another such call, and a result that is a function of the argument VALUES cannot depend on concurrent readers. "
         "Proved (`assigns` clauses, every store, map update, call and C call checked against them): (*kmac128).ComputeHash writes nothing that exists at entry (it works on a clone; Clone/Write/Read of the cSHAKE state per the assumed x/crypto contract) and leaves the shared sponge ghost state unchanged; "
